@@ -13,6 +13,7 @@ import Rare.Proofs.C01Unbuffered
 import Rare.Proofs.C01Chunk
 import Rare.Proofs.C01Colour
 import Rare.Proofs.C01Readers
+import Rare.Proofs.C01Order
 import Rare.Model.C01Source
 import Rare.Gen.C01
 /-!
@@ -887,6 +888,105 @@ theorem pipeline_readers_saturate (cls : α → Cls) (R B K W : Nat) (inputs : L
     ∃ s, Reach cls R B K (init inputs W) s ∧ activeCount s = min R inputs.length := by
   refine ⟨started inputs W (min R inputs.length), started_reach cls R B K W inputs _ (Nat.min_le_left _ _) (Nat.min_le_right _ _), ?_⟩
   rw [activeCount_started]; omega
+
+/-! ## Arrival order (`--workers 1`) -/
+
+/-- **One worker keeps every source's order.**  With `--workers 1` – for every number of readers, batch size, channel
+    capacities and schedule – the lines selected by any predicate `p` whose lines all live in ONE source `i0` reach
+    the consumer in their input order: at every reachable state what the consumer has of them is a prefix of the
+    sequential list of matches, and at the end it is that list.  (Lines of different sources may interleave.) -/
+theorem pipeline_single_worker_order (cls : α → Cls) (R B K : Nat) (inputs : List (List (List α))) (p : α → Bool) (i0 : Nat)
+    (hp : ∀ (j : Nat) bs, j ≠ i0 → inputs[j]? = some bs → ∀ x ∈ bs.flatten, p x = false) {s : St α}
+    (hr : Reach cls R B K (init inputs 1) s) :
+    s.consumed.filter p <+: ((inputs.flatMap List.flatten).filter (isMatched cls)).filter p ∧
+    (s.consDone = true → s.consumed.filter p = ((inputs.flatMap List.flatten).filter (isMatched cls)).filter p) := by
+  obtain ⟨_, _, ho⟩ := order_reach cls p hr (by simp [init]) (othersClean_init p i0 inputs 1 hp)
+  rw [order0_init] at ho
+  have hinv := pipeline_invariant cls R B K 1 inputs hr
+  have hcm : ∀ y ∈ s.consumed, isMatched cls y = true := by
+    intro y hy
+    have h1 := hinv.mats y
+    have h2 : 0 < s.consumed.count y := List.count_pos_iff.mpr hy
+    have h3 : 0 < (s.processed.filter (isMatched cls)).count y := by omega
+    have := List.count_pos_iff.mp h3
+    exact (List.mem_filter.mp this).2
+  have hsel : s.consumed.filter (sel cls p) = s.consumed.filter p := by
+    apply List.filter_congr
+    intro y hy
+    simp [sel, hcm y hy]
+  have hall : (inputs.flatMap List.flatten).filter (sel cls p) = ((inputs.flatMap List.flatten).filter (isMatched cls)).filter p := by
+    rw [List.filter_filter]
+    apply List.filter_congr
+    intro y _
+    simp [sel, Bool.and_comm]
+  have hpre : s.consumed.filter p <+: ((inputs.flatMap List.flatten).filter (isMatched cls)).filter p := by
+    rw [← hall, ← ho, order0, List.filter_append, hsel]
+    exact List.prefix_append _ _
+  refine ⟨hpre, fun hd => ?_⟩
+  have hperm := (pipeline_final cls R B K 1 (by omega) inputs hr hd).1
+  exact hpre.eq_of_length (hperm.filter p).length_eq
+
+/-- … for byte inputs: with one worker the matches of file `i` are emitted in the order of the file's lines (what
+    `rare filter --workers 1` prints per file is in line order), whatever `--readers`, `--batch`, `--batch-buffer`,
+    the flush timer and the schedule; with a single input the whole output is in input order. -/
+theorem single_worker_file_order (cls : Line → Cls) (R B K batchSize : Nat) (datas : List Bytes)
+    (timer : Nat → Nat → Bool) (i : Nat) {s : St Line}
+    (hr : Reach cls R B K
+      (init ((datas.zipIdx 0).map fun p =>
+        (run batchSize ((linesOf p.2 p.1).map fun l => (l, timer p.2 l.num))).map (·.lines)) 1) s) :
+    s.consumed.filter (fun l => l.src == i) <+: (seqMatches cls (allLines datas)).filter (fun l => l.src == i) ∧
+    (s.consDone = true →
+      s.consumed.filter (fun l => l.src == i) = (seqMatches cls (allLines datas)).filter (fun l => l.src == i)) := by
+  have hflat : ∀ (p : Bytes × Nat),
+      ((run batchSize ((linesOf p.2 p.1).map fun l => (l, timer p.2 l.num))).map (·.lines)).flatten = linesOf p.2 p.1 := by
+    intro p
+    have := (batches_concat batchSize ((linesOf p.2 p.1).map fun l => (l, timer p.2 l.num))).1
+    rw [List.flatMap_def] at this
+    rw [this]; simp [Function.comp_def]
+  have hall : ((datas.zipIdx 0).map fun p =>
+        (run batchSize ((linesOf p.2 p.1).map fun l => (l, timer p.2 l.num))).map (·.lines)).flatMap List.flatten
+      = allLines datas := by
+    unfold allLines
+    rw [List.flatMap_map]
+    congr 1
+    funext p
+    exact hflat p
+  have h := pipeline_single_worker_order cls R B K _ (fun l : Line => l.src == i) i ?_ hr
+  · rw [hall] at h
+    exact h
+  · intro j bs hj hbs x hx
+    simp only [List.getElem?_map, Option.map_eq_some_iff] at hbs
+    obtain ⟨p, hp, rfl⟩ := hbs
+    rw [hflat p] at hx
+    have hsrc := (mem_linesOf hx).1
+    have hp2 : p.2 = j := by
+      rw [List.getElem?_zipIdx] at hp
+      cases hd : datas[j]? with
+      | none => simp [hd] at hp
+      | some d => simp [hd] at hp; rw [← hp]
+    have : x.src ≠ i := by rw [hsrc, hp2]; exact hj
+    simpa using this
+
+/-- With two workers the order is NOT preserved: one source, two batches `[1]`, `[2]`, everything matched – the
+    second worker can overtake the first, and the consumer receives `2` before `1`. -/
+theorem two_workers_reorder_counterexample :
+    ∃ s, Reach (fun _ : Nat => Cls.matched) 1 2 5 (init [[[1], [2]]] 2) s ∧ s.consDone = true ∧ s.consumed = [2, 1] := by
+  have h : applyAll (fun _ : Nat => Cls.matched) 1 2 5 (init [[[1], [2]]] 2)
+      [.start 0, .send 0, .send 0, .finish 0, .closeC, .wrecv 0, .wrecv 1, .wproc 1, .wsend 1, .wproc 0, .wsend 0,
+       .crecv, .crecv, .wexit 0, .wexit 1, .closeRC, .cdone] =
+      some { srcs := [.done], c := [], cClosed := true, workers := [.exited, .exited], rc := [], rcClosed := true,
+             consumed := [2, 1], consDone := true, processed := [2, 1], nRead := 2, nMatched := 2, nIgnored := 0 } := by
+    rfl
+  exact ⟨_, (applyAll_lpath _ _ _ h).reach .refl, rfl, rfl⟩
+
+/-- Non-vacuity of `pipeline_single_worker_order`: two sources, one worker, every line of source 1 (the even
+    numbers) selected. -/
+example : ∀ (j : Nat) bs, j ≠ 1 → ([[[1, 3], [5]], [[2], [4, 6]]] : List (List (List Nat)))[j]? = some bs →
+    ∀ x ∈ bs.flatten, (fun n : Nat => n % 2 == 0) x = false := by
+  intro j bs hj hbs x hx
+  match j, hj with
+  | 0, _ => simp at hbs; subst hbs; simp at hx; rcases hx with rfl | rfl | rfl <;> rfl
+  | j + 2, _ => simp at hbs
 
 /-! ## The source the models were written against (translator tie, `harness/extract/c01.go`) -/
 
